@@ -164,6 +164,10 @@ def check(case, ctx):
         data, other = ({"X": uda}, {"Y": vda}) if vec == "X" else ({"Y": vda}, {"X": uda})
         base = ub if vec == "X" else vb
         model_arrs = {"X": arrs["U"], "Y": arrs["V"]}
+    if vec is not None:
+        # the Grid is used for a scalar padding with other widths first: earlier calls must not matter
+        probe = xr.DataArray(np.arange(float(nf * N * N)).reshape(nf, N, N), dims=["face", "yc", "xc"])
+        must_return("scalar pad before the vector pad", pad, probe, grid, boundary_width={"X": (1, 0), "Y": (0, 1)})
     exp, known, crossed = oracle(model_arrs, vec, table, N, fullw, case["bnd"], case["fill"])
     got = must_return("pad", pad, data, grid, boundary_width={a: tuple(w) for a, w in case["widths"].items()},
                       other_component=other, **ckw)
